@@ -11,28 +11,28 @@ import (
 
 // zzImpl records what the generated stub hands to the implementation and answers with harness-chosen values.
 type zzImpl struct {
-	calls                   int
-	a8                      int8
-	b8                      uint8
-	c16                     int16
-	d16                     uint16
-	a32                     int32
-	b32                     uint32
-	c64                     int64
-	d64                     uint64
-	flag                    bool
-	f32                     float32
-	f64                     float64
-	str                     string
-	ret8                    int8
-	ret64                   uint64
-	retStr                  string
-	retBool                 bool
-	retF64                  float64
+	calls   int
+	a8      int8
+	b8      uint8
+	c16     int16
+	d16     uint16
+	a32     int32
+	b32     uint32
+	c64     int64
+	d64     uint64
+	flag    bool
+	f32     float32
+	f64     float64
+	str     string
+	ret8    int8
+	ret64   uint64
+	retStr  string
+	retBool bool
+	retF64  float64
 }
 
 func (z *zzImpl) Activate(activation bus.Activation, helper ScalarsSignalHelper) error { return nil }
-func (z *zzImpl) OnTerminate()                                                          {}
+func (z *zzImpl) OnTerminate()                                                         {}
 func (z *zzImpl) Small(a int8, b uint8, c int16, d uint16) (int8, error) {
 	z.calls++
 	z.a8, z.b8, z.c16, z.d16 = a, b, c, d
